@@ -3,7 +3,9 @@ from props import engine_common
 from props.c01 import FINISH
 
 THEOREMS = ["Slock.C04.C04_order_never_overtakes", "Slock.C04.C04_order_sorted", "Slock.C04.C04_grant_is_head", "Slock.C04.C04_wake_pass_settles",
-            "Slock.C04.C04_after_unlock", "Slock.C04.C04_after_expiry", "Slock.C04.C04_quiescent_counterexample", "Slock.C04.C04_quiescent_fails",
+            "Slock.C04.C04_after_unlock", "Slock.C04.C04_after_expiry", "Slock.C04.reachable_IQ", "Slock.C04.C04_quiescent",
+            "Slock.C04.C04_quiescent_key", "Slock.C04.C04_no_lost_wakeup", "Slock.C04.C04_headAdmissible", "Slock.C04.freshRun_of_unique",
+            "Slock.C04.C04_quiescent_unique_ids", "Slock.C04.C04_f4_repaired", "Slock.C04.C04_quiescent_needs_fresh",
             "Slock.C04.C04_quiescent_partial", "Slock.Engine.consts_match"]
 
 
